@@ -2,7 +2,6 @@ use std::str::FromStr;
 
 use std::cmp::Ordering;
 use std::hash::{Hash, Hasher};
-use std::ops::{Add};
 
 use itertools::Itertools;
 
@@ -322,7 +321,7 @@ impl Value {
         match self {
             Value::Null => serde_json::Value::Null,
             Value::Int(value) => serde_json::Value::Number(serde_json::Number::from(*value)),
-            Value::Float(Float(value)) => serde_json::Value::Number(serde_json::Number::from_f64(*value).unwrap()),
+            Value::Float(Float(value)) => serde_json::Number::from_f64(*value).map(|number| serde_json::Value::Number(number)).unwrap_or(serde_json::Value::Null),
             Value::Bool(value) => serde_json::Value::Bool(*value),
             Value::String(value) => serde_json::Value::String(value.clone()),
             Value::Array(_, value) => serde_json::Value::Array(value.iter().map(|x| x.json_value()).collect()),
@@ -373,8 +372,9 @@ impl ValueType {
             ValueType::Array(_) => None,
             ValueType::Timestamp => {
                 NaiveDateTime::parse_from_str(value_str, "%Y-%m-%d %H:%M:%S")
-                    .map(|x| Value::Timestamp(Local {}.from_local_datetime(&x).unwrap()))
                     .ok()
+                    .and_then(|x| Local {}.from_local_datetime(&x).latest())
+                    .map(|x| Value::Timestamp(x))
             }
             ValueType::Interval => {
                 let parts = value_str.split(":").collect::<Vec<_>>();
@@ -382,9 +382,9 @@ impl ValueType {
                     let hours = i64::from_str(parts[0]).ok()?;
                     let minutes = i64::from_str(parts[1]).ok()?;
                     let seconds = i64::from_str(parts[2]).ok()?;
-                    let duration = IntervalType::hours(hours)
-                        .add(IntervalType::minutes(minutes))
-                        .add(IntervalType::seconds(seconds));
+                    let duration = IntervalType::try_hours(hours)?
+                        .checked_add(&IntervalType::try_minutes(minutes)?)?
+                        .checked_add(&IntervalType::try_seconds(seconds)?)?;
                     Some(Value::Interval(duration))
                 } else {
                     None
